@@ -274,6 +274,13 @@ func (fc *FnCtx) monitorWrite(st *State, lhs ast.Expr) {
 		if m.Type != tn {
 			continue
 		}
+		if fc.decl != nil {
+			if reason, skip := m.Skip[fc.decl.Name.Name]; skip {
+				// listed in the monitor with its reason (e.g. the object is not shared yet): no lock needed here
+				fc.assumptions["monitor "+m.Type+"."+m.Lock+": writes in "+fc.decl.Name.Name+" need no lock ("+reason+")"] = true
+				continue
+			}
+		}
 		for _, f := range m.Fields {
 			if strings.Contains(f, ".") || f != se.Sel.Name {
 				continue
